@@ -482,15 +482,15 @@ def cowsplit_cases():
 #      renamed in the answer.  This is exact because no operation branches on a scalar's value and the stand-in
 #      agrees with the infinity on everything observed except its name and its %f text: toBool true, every
 #      float -> integer cast undefined, equal to itself and to nothing else that is generated (strings reading as
-#      "inf" are excluded by BAD_STR).  -0 agrees with 0 on everything observed except the %f text of a
-#      root-level variable ("-0.000000"), which is patched where a second run with a marked stand-in shows the -0
-#      has travelled.  strtouch / strapp (which would turn the stand-in's text into a string payload) are not part
+#      "inf" are excluded by BAD_STR).  -0 agrees with 0 on everything observed except its name in a dump and, for a
+#      root-level variable, toDouble() and the %f text ("-0.000000"); these are patched where a second run with a
+#      marked stand-in shows the -0 has travelled.  strtouch / strapp (which would turn the stand-in's text into a string payload) are not part
 #      of these cases.
 # ----------------------------------------------------------------------------------------------
 SPECIALS = {          # token: (dump, isNull, toBool, toInt.., toDouble token, toString, float)
     'dinf': ('dinf', '0', '1', 'ub', 'ub', 'ub', 'ub', 'dinf', 'inf', float('inf')),
     'd-inf': ('d-inf', '0', '1', 'ub', 'ub', 'ub', 'ub', 'd-inf', '-inf', float('-inf')),
-    'd-0': ('d0_0', '0', '0', '0', '0', '0', '0', 'd0_0', '-0.000000', -0.0),   # the harness prints both zeros as d0_0
+    'd-0': ('d-0', '0', '0', '0', '0', '0', '0', 'd-0', '-0.000000', -0.0),     # the sign shows in the dump, toDouble() and %f
     'dnan': ('dnan', '0', '1', 'ub', 'ub', 'ub', 'ub', 'dnan', 'nan', float('nan')),
 }
 SPECIAL_RE = re.compile(r'(^| )d(inf|-inf|-0|nan)( |$)')
@@ -529,6 +529,8 @@ def dbl_tok_value(tok):
     import math
     if tok in ('dinf', 'd-inf', 'dnan'):
         return float(tok[1:])
+    if tok == 'd-0':
+        return -0.0
     m, e = tok[1:].split('_')
     return math.ldexp(float(int(m)), int(e))       # exact: |m| < 2^53, result inside the binary64 range
 
@@ -628,8 +630,10 @@ def standin_rename(line):
 
 
 def standin_patch_negzero(line_a, line_b):
-    """line_a: answer with -0 run as 0; line_b: answer with -0 run as NEGZERO_MARK.  A root-level variable that holds
-    the marked value holds -0: its %f text is "-0.000000" """
+    """line_a: answer with -0 run as 0; line_b: answer with -0 run as NEGZERO_MARK (same shape: no operation branches on
+    a scalar).  Where the marked value has travelled there is a -0: the dumps are taken from line_b with the mark renamed,
+    and a root-level variable holding it reports toDouble() -0 and the %f text "-0.000000"; everything else (the other
+    coercions, the == matrix, the heap shape) is that of 0."""
     sa, sb = line_a.split(' | '), line_b.split(' | ')
     if len(sa) < 3 or len(sb) < 3:
         return line_a
@@ -639,7 +643,9 @@ def standin_patch_negzero(line_a, line_b):
         if d == '2:' + NEGZERO_MARK and i < len(co):
             f = co[i].split(',')
             f[-1] = hexs(b'-0.000000')
+            f[-2] = 'd-0'
             co[i] = ','.join(f)
+    sa[1] = re.sub(r'(?<![0-9_])%s(?![0-9])' % re.escape(NEGZERO_MARK), 'd-0', sb[1])
     sa[2] = ' '.join(co)
     return ' | '.join(sa)
 
@@ -750,6 +756,31 @@ def maporder_cases():
     return cases
 
 
+def deep_cases():
+    """nesting depth 6 / 10 / 15 (the harness holds paths of 16 steps) and a copy-on-write step that has to clone every
+    level on the way down; 3-6 variables (audit 2, F7: the other streams stop at paths of length 4)"""
+    cases = []
+    kinds = {'l': ('l#0', '-:0'), 'a': ('a#0', '-:0'), 'm': ('m=6b', '6b:0'), 'x': None}
+    for kd in 'lamx':
+        for depth in (6, 10, 15):
+            if kd == 'x':      # the kinds alternate along the path
+                seq = [('l', 'a', 'm')[n % 3] for n in range(depth)]
+            else:
+                seq = [kd] * depth
+            # built from the inside out: the outermost container is the one added last
+            build = ['setstr 0 - 7a'] + ['setnode 0 - %s %s' % (k, kinds[k][1]) for k in reversed(seq)]
+            steps = [kinds[k][0] for k in seq]
+            leaf, inner, half = '/'.join(steps), '/'.join(steps[:-1]), '/'.join(steps[:depth // 2])
+            kin = seq[-1]
+            for sn, share in enumerate(([], ['copynew 1 0'], ['assign 1 - 0 %s' % half], ['copynew 1 0', 'assign 2 - 0 %s' % inner])):
+                for w in ['strapp 0 %s 78' % leaf, 'sets 0 %s d-1_-1074' % leaf, 'cont 0 %s %s ins:9999:6b61 2 -' % (inner, kin),
+                          'cont 0 %s %s rem:0 2 -' % (inner, kin), 'assign 0 %s 1 -' % leaf, 'assignstr 2 - 0 %s' % leaf,
+                          'clear 0 %s' % inner, 'setnode 0 %s m 61:1,62:2' % leaf, 'assignnode 0 %s 0 %s %s' % (half, inner, kin),
+                          'assign 3 - 0 %s' % half]:
+                    cases.append(['@%d' % (4 + sn % 3)] + build + share + [w, 'strapp 1 %s 79' % half, 'cont 2 - %s clr 0 -' % kin, 'clear 0 -'])
+    return cases
+
+
 def eqwrap_cases():
     """values that are equal only through the cast == applies to its RIGHT operand (or only in one order)"""
     rng_of = {'i': (-2 ** 31, 2 ** 31), 'u': (0, 2 ** 32), 'I': (-2 ** 63, 2 ** 63), 'U': (0, 2 ** 64)}
@@ -812,14 +843,26 @@ class C07(Check):
                   'assigned Variant itself) is read back, an operation on x changes no other variable, a copy compares equal to its '
                   'source; the accessors\' switch(data->type) with its C casts and operator== with its choice of the converted operand, '
                   'transcribed in the model independently of the Spec, compute the Spec\'s coercions; laws of these coercions (in-range '
-                  'conversions preserve the value, C wrap-around, int<->double exact, decimal strings parse back). The model is tied to the code by running the extracted model, the extracted spec and the '
-                  'ASan/UBSan/LSan build of the working tree on the same histories; observations, the == matrix, all coercions and the '
-                  'canonical heap shape (sharing structure and every reference count) are compared after every op.')
+                  'conversions preserve the value, C wrap-around, int<->double exact, decimal strings parse back). Where the property '
+                  'text is silent - the integral conversion of a decimal string whose value the target type cannot hold, == of two maps '
+                  'holding the same keys in another insertion order, and every comparison that consults one of these - the expected '
+                  'observation of the property oracle is open (`?`; VariantSpec.str_fits / veq_pinned, delimited by '
+                  'text_decides_equality_with_a_copy, conversion_open_only_for_out_of_range_strings, in_range_decimal_strings_are_decided, '
+                  'text_decides_plain_comparisons, permuted_maps_left_open); the code\'s choice there is kept in the model and compared by '
+                  'the correspondence only. The model is tied to the code by running the extracted model, the extracted spec and the '
+                  'ASan/UBSan/LSan build of the working tree on the same histories; observations (getType, isNull, deep dump), the == matrix, '
+                  'all coercions and the canonical heap shape (sharing structure and every reference count) are compared after every op.')
     level_note = ('Trusted: Coq kernel, VariantSpec.v (value model and reference coercions), extraction + OCaml driver, harness, generators. '
-                  'Doubles are exact dyadic rationals in Coq; infinities and -0 (inside the property, which excludes only NaN) are covered by '
-                  'the stream dblspecial with a hand-written oracle (root-level scalar histories: set/construct/assign/swap/copy, every '
-                  'coercion, ==), not by a theorem; the sign of a zero returned by toDouble is not observed; float->integer casts that are '
-                  'undefined in C++ are not observed. '
+                  'Doubles are exact dyadic rationals in Coq (any exponent; the generators now reach subnormals, the ends of the float '
+                  'range and DBL_MAX); infinities and -0 (inside the property, which excludes only NaN) are not covered by a theorem but by '
+                  'two correspondence streams: dblspecial (root-level scalar histories: set/construct/assign/swap/copy, every coercion, '
+                  '==; hand-written oracle) and dblnested (the same values as items of lists/arrays/maps at any depth, copied, read out, '
+                  'overwritten through the mutable accessors, compared: the extracted Spec/Model run with a finite stand-in above 2^64 for '
+                  'each infinity and 0 for -0, renamed afterwards - exact because no operation branches on a scalar and the stand-in '
+                  'differs from the infinity in nothing that is observed but its name and %f text; not applicable to toString() through '
+                  'the mutable accessor, which is not run on special values). The sign of a stored zero is observed (dump, toDouble, %f). '
+                  'NaN (excluded by the property) is run at root level only: the property oracle expects nothing of a variable holding it, '
+                  'IEEE behaviour is compared on the model side. Float->integer casts that are undefined in C++ are not observed. '
                   'Validated by the correspondence run only: (a) that the reference functions shared by Model and Spec - glibc '
                   'strtol/strtoul/strtod, printf %d/%u/%lld/%llu/%f, int64->double rounding, String::toBool - are what libc and String do '
                   '(every alternative is run against every other; stream eqwrap for values that differ by multiples of 2^32/2^64). The '
@@ -831,11 +874,16 @@ class C07(Check):
                   'in-place write of an exclusively owned payload equals the model\'s retire-and-reallocate (the heap shape dump compares '
                   'sharing and counts, not addresses); (c) the converting constructors Variant(bool|...|String|List|Array|HashMap), which '
                   'the drivers map to the assignment of the same value to the root (ops csets/csetstr/csetnode). '
-                  'Where the property text is silent the Spec follows the code (documented choices, not theorems of the property): map '
-                  'equality compares entries in insertion order (two maps with the same entries inserted in different orders are unequal); '
-                  'string-vs-scalar equality coerces the string to the scalar\'s type, so == is neither symmetric nor transitive across '
-                  'alternatives ("1.0" == 1 and 1 == "1" but "1.0" != "1"); out-of-range decimal strings convert to the strtol/strtoul '
-                  'saturation value, then wrap to 32 bits; a mutable accessor of the wrong kind on the way along a path replaces the value '
+                  'Where the property text is silent: (1) OPEN in the property oracle, code\'s choice kept in the model only '
+                  '(a change there ends in `no-failing-input-found`, never in a failing input): map equality compares entries in '
+                  'insertion order (two maps with the same entries inserted in different orders are unequal in the code; stream maporder); '
+                  'a decimal string whose value the target integral type cannot hold (including a negative one read as unsigned) converts '
+                  'to the strtol/strtoul saturation value, then wraps to 32 bits - nothing in the repository documents this case and '
+                  'atoi/atoll leave it undefined; (2) still FOLLOWING THE CODE in the Spec (documented choices, not theorems of the '
+                  'property): string-vs-scalar equality coerces the string to the scalar\'s type, so == is neither symmetric nor transitive '
+                  'across alternatives ("1.0" == 1 and 1 == "1" but "1.0" != "1"); text after a decimal prefix is ignored ("12abc" reads as '
+                  '12), a NUL byte ends the text the conversions read while ==, the dump and toString() see the whole counted string; a '
+                  'mutable accessor of the wrong kind on the way along a path replaces the value '
                   'there by an empty container even when the operation then reports NoPath. '
                   'Excluded by hypothesis (skipped by harness, model and spec, result `excluded`): operations that store into a payload a '
                   'Variant containing that same payload - v.toList().append(v), v.toList().front() = v, f = cv.toList() with f two or more '
@@ -844,26 +892,36 @@ class C07(Check):
                   'Sequential use only (Atomic increments/decrements are plain arithmetic in the model).')
     technique = ('machine-checked proof in Coq (invariant + refinement by induction over histories) about a hand-written Gallina model of '
                  'the copy-on-write heap; model tied to the code by an extracted-model / extracted-spec / implementation correspondence check')
-    rule = ('cases = histories over 2-4 Variant variables in the op language of VariantSpec.op (set scalar/string/container at a path, '
+    rule = ('cases = histories over 2-6 Variant variables (paths up to 15 steps in stream deep, up to 4 elsewhere) in the op language of VariantSpec.op (set scalar/string/container at a path, '
             'assign/copy/swap/clear, assign a String/container taken by reference from a node of any variable - mostly a descendant of '
             'the destination itself, mutable accessor + insert/remove/clear at a path, toString + append) plus the converting '
-            'constructors; streams: every alternative against others for coercions and == (assignment operator or constructor); '
+            'constructors; string values, appended suffixes and map keys include NUL bytes; doubles include subnormals, the ends of the '
+            'float range and DBL_MAX; streams: every alternative against others for coercions and == (assignment operator or constructor); '
             'groups of four integral/bool/double/string values congruent modulo 2^32 or 2^64 (eqwrap: both orders of every pair in the == matrix); '
-            'infinities and -0 against each other and ordinary scalars (hand-written oracle); the copy-on-write case split (payload kind '
+            'infinities, -0 and NaN against each other and ordinary scalars incl. the extreme doubles (hand-written oracle); infinities '
+            'and -0 inside containers of every kind, two levels, and in random nested histories (stand-in runs of the extracted '
+            'Spec/Model); pairs of maps with equal / permuted / different key sequences at the root and nested; containers nested 6 / 10 / 15 levels '
+            'with a write at the bottom under three sharing patterns (deep); the copy-on-write case split (payload kind '
             'incl. containers holding an unshared container of their own kind x sharer x root/nested with inner/outer sharing x write '
             'operation incl. assignment from self / descendant / ancestor / other variable, accessor kind matching or not, followed by '
             'probes that mutate/release the sharers); random root-level, nested and malformed histories; all histories of length <= 3 '
             'over a 26-op alphabet (thorough). A case is non-trivial when some payload is shared (ref >= 2) at some point or at least '
             'two different alternatives are assigned; distinct = distinct op text')
     assumptions = ['doubles are finite exact dyadic rationals m*2^e in the Coq model; NaN excluded by the property; infinities and -0 only '
-                   'checked against a hand-written oracle (stream dblspecial)',
+                   'checked by correspondence (streams dblspecial: hand-written oracle; dblnested: stand-in runs of the extracted Spec/Model)',
+                   'the text decides nothing about the integral value of a decimal string outside the target type, nor about == of maps '
+                   'with the same keys in another insertion order: open in the property oracle, code\'s choice compared with the model only',
                    'float -> integer conversions whose truncated value is not representable are undefined in C++ and not observed',
                    'no operation stores into a payload a Variant that contains that payload (self_containing = false; open finding)',
                    'sequential histories (no concurrent access to one payload)']
 
+    _crashes_seen = 0
+
     def run_impl(self, cases, tag='impl'):
-        """as Check.run_impl with LeakSanitizer on; a stream on which the implementation crashes hundreds of times (every
-        crash restarts the harness) is run in pieces, after 1000 crashes the rest of the stream is not run (dropped by vf.py)"""
+        """as Check.run_impl with LeakSanitizer on.  Every crash restarts the harness (and costs an ASan report), so a tree on
+        which most cases crash is not run to the end (round 5): a stream is run in pieces of 100 cases and stops after 150
+        crashes; once 300 crashes have been seen in this run every further stream stops after its first 40 cases.  The cases
+        not run are dropped by vf.py (`! notrun`); the crashes seen are failing inputs already."""
         from vf import run_exe_on_cases, BUILD
         # leak_check_at_exit=0 instead of LSAN_OPTIONS=exitcode=0: the latter also made an ASan report exit with status 0,
         # which vf.py takes for a complete run (the crashing case and every later case of the stream lost their output)
@@ -871,9 +929,11 @@ class C07(Check):
                'LSAN_OPTIONS': 'print_suppressions=0'}
         rundir = os.path.join(BUILD, self.id, 'run')
         res, crashes, i, total = [], {}, 0, 0
+        counted = tag.startswith('impl_')
         while i < len(cases):
-            chunk = cases[i:i + 300]
-            if total > 1000:
+            step = 100 if (counted and C07._crashes_seen <= 300) else 40
+            chunk = cases[i:i + step]
+            if total > 150 or (counted and C07._crashes_seen > 300 and i > 0):
                 res += [['! notrun'] for _ in chunk]
             else:
                 r, c = run_exe_on_cases(self.exes['impl'], chunk, rundir, tag, is_impl=True,
@@ -882,7 +942,9 @@ class C07(Check):
                 for k, v in c.items():
                     crashes[i + k] = v
                 total += len(c)
-            i += 300
+                if counted:
+                    C07._crashes_seen += len(c)
+            i += step
         return res, crashes
 
     # ---- special doubles: judged by SpecialOracle instead of the extracted Spec/Model ----
@@ -1031,6 +1093,11 @@ class C07(Check):
         out.append(Stream('maporder', maporder_cases(), exhaustive=True,
                           note='maps with equal / permuted / different key sequences and equal / different values, at the root, as '
                                'list items and as map values, built by assignment, by insert-at-front and by remove + re-insert'))
+        # 1a'''. deep nesting
+        out.append(Stream('deep', deep_cases(), exhaustive=True,
+                          note='containers nested 6 / 10 / 15 levels (one kind or kinds alternating), unshared / copied / lower half held '
+                               'by another variable, then one write at the bottom (string append, scalar, insert, remove, assignment '
+                               'from another variable or from the own payload) and probes on the sharers'))
         # 1b. the copy-on-write case split (all of it in the thorough tier, a third in the quick tier)
         cw = cowsplit_cases()
         if not thorough:
